@@ -35,7 +35,7 @@ Definition hop_of (o : cop) : hop :=
   | CCert ref target => OCertgen (match ref with Some i => Some (N.to_nat i) | None => None end)
                                  (case_req (sh NoCr target) 0 0)
   | CRead => ORead None
-  | CInject ok => OInject {| Seal.i_tls := true; Seal.i_chain := true; Seal.i_field := Some (if ok then key_pass else wrong_pass) |}
+  | CInject ok => OInject (Seal.admin_inj (Some (if ok then key_pass else wrong_pass)))
   end.
 
 Definition life_boot (c : hcase) : proc :=
